@@ -11,7 +11,7 @@ import (
 // to earlier results.  Every call is compared with a freshly parsed reference evaluated on a
 // copy of the document as it was just before the call.
 func runC05() *RunResult {
-	w := &World{prop: "C05", refInline: true, judgeOutcome: true, checkOld: true, selfReentry: true}
+	w := &World{prop: "C05", refInline: true, judgeOutcome: true, checkOld: true, selfReentry: true, memoEqualDocs: true}
 	nt := 1
 	if chance(30) {
 		nt = 2 + rn(3)
@@ -49,7 +49,7 @@ func runC05() *RunResult {
 		for c := 0; c < ncalls; c++ {
 			switch rn(10) {
 			case 0:
-				t.ops = append(t.ops, &Op{Kind: opScribble, Arg: rn(8)})
+				t.ops = append(t.ops, &Op{Kind: opScribble, Arg: rn(8), Arg2: rn(2)})
 			case 1:
 				t.ops = append(t.ops, &Op{Kind: opAppend, Arg: rn(8)})
 			case 4:
